@@ -209,6 +209,29 @@ Definition regs_ok (regs : list reg) : bool :=
           [STERM; SINT; SALRM].
 Definition regs_today : list reg := [mkreg STERM false; mkreg SINT false; mkreg SALRM false].
 
+(* ---- resume must not re-seed the random generators ------------------------------------------ *)
+(* The generator state is not pickled.  One run = several processes (process 0, then one per
+   resume); in each process the uninformed proposal refills its pool from the process's generator.
+   A pool is identified by (process, number of the refill in that process): the fresh process of a
+   resume has a generator of its own (oracle: pools with different identities are disjoint, C01's
+   "fresh draws" hypothesis).  If the resume path SEEDS the generators, every resumed process
+   replays the same stream: pool (j, i) of any resumed process j >= 1 is pool (1, i).              *)
+Inductive hev := HRefill | HResume.
+Inductive seedcall := SeedConfigure | SeedNumpy | SeedTorch | SeedOther.
+Definition reseeds (calls : list seedcall) : bool := negb (length calls =? 0)%nat.
+Definition pool_key (reseed : bool) (j i : nat) : nat * nat :=
+  if reseed && (1 <=? j)%nat then (1%nat, i) else (j, i).
+Fixpoint pools_from (reseed : bool) (j i : nat) (h : list hev) : list (nat * nat) :=
+  match h with
+  | [] => []
+  | HRefill :: r => pool_key reseed j i :: pools_from reseed j (S i) r
+  | HResume :: r => pools_from reseed (S j) 0 r
+  end.
+(* everything the proposal offers over the whole history *)
+Definition offered {A} (pool : nat * nat -> list A) (reseed : bool) (h : list hev) : list A :=
+  flat_map pool (pools_from reseed 0 0 h).
+Definition resume_seed_ok (calls : list seedcall) : bool := negb (reseeds calls).
+
 (* ---- ImportanceNestedSampler.checkpoint ------------------------------------------------------ *)
 Inductive ieff :=
 | IGuardReturn     (* if periodic is False: (log); return                *)
@@ -245,3 +268,14 @@ Definition witness_ok (effs : list eff) (k : nat) : bool :=
   | Some f => final_ok_b 4 f
   | None => false
   end.
+
+(* witness for the refuted variant: signal, resume, refill, signal, resume, refill - the second
+   refill offers point 21 again while the copy accepted after the first resume is still alive   *)
+Definition rs_history : list hev := [HRefill; HResume; HRefill; HResume; HRefill].
+Definition rs_pool (k : nat * nat) : list Z :=
+  match k with (0, _) => [10; 11]%Z | (1, 0) => [20; 21]%Z | (2, 0) => [30; 31]%Z | _ => [] end.
+Definition rs_stream (reseed : bool) : list draw :=
+  map (fun i => (wpt i (i + 100)%Z, 0%Z, true)) (offered rs_pool reseed rs_history).
+Definition rs_live_after (reseed : bool) : list Z :=
+  match run 6 wstate (rs_stream reseed) with Some (s, _) => map pid (live s) | None => [] end.
+
